@@ -652,6 +652,29 @@ def gen_inference(tier, seed, named=False):
         yield {"tpl": tpl, "T": T, "evidence": _evidence(rng, tpl, T, evk)}
 
 
+    # left-to-right chains: the interface variable starts in its first state and never moves back, so forward interface messages carry
+    # exact zeros (0/0 must not turn into NaN anywhere in the smoothing pass)
+    made = 0
+    want = (16 if tier == "quick" else 60) if not named else 4
+    for k in range(40 * want):
+        if made >= want:
+            break
+        tpl = make_template(rng, rng.choice((2, 3)), 1, False, named=named, explicit=True, zeros=(k % 2 == 0), style=("str", "mixed")[k % 2])
+        z = tpl["inter"][0][0]
+        if len(tpl["inter"]) != 1 or tpl["cpd0"][z]["parents"] or tpl["cpd1"][z]["parents"] != [[z, 0]]:
+            continue
+        card = len(tpl["cpd0"][z]["table"])
+        tpl["cpd0"][z]["table"] = [["1"]] + [["0"]] * (card - 1)
+        cols = []
+        for j in range(card):
+            w = [0] * j + [rng.randint(1, 4) for _ in range(card - j)]
+            cols.append([Fraction(x, sum(w)) for x in w])
+        tpl["cpd1"][z]["table"] = [[str(cols[j][i]) for j in range(card)] for i in range(card)]
+        made += 1
+        T = rng.choice((2, 3, 3))
+        yield {"tpl": tpl, "T": T, "evidence": _evidence(rng, tpl, T, ("plain", "none")[k % 2])}
+
+
 def gen_inference_named(tier, seed):
     return gen_inference(tier, seed, True)
 
@@ -719,7 +742,8 @@ def groups(tier):
     return [
         Group("inference", gen_inference, check_inference, nontrivial, seed_fanout=fan, engine="E3",
               bound="core templates: 2-3 variables per slice, cards in {2,3}, 1-2 interface nodes with persistence edges (v,t-1)->(v,t), every variable on an "
-                    "intra-slice edge, default state names, T in 1..3, evidence on non-interface variables in 1-3 slices or none; every (variable, slice) asked "
+                    "intra-slice edge, default state names, T in 1..3, evidence on non-interface variables in 1-3 slices or none; 16 (60) left-to-right chains "
+                    "(start state certain, no way back: exact zeros in the interface messages); every (variable, slice) asked "
                     "alone with query|backward_inference (smoothing) and forward_inference (filtering), then all variables of a slice; expected values from "
                     "an independent unroller + exact Fraction elimination"),
         Group("inference_named", gen_inference_named, check_inference, nontrivial, seed_fanout=2, engine="E3",
